@@ -16,6 +16,10 @@ from vlib.common import PROVED, REFUTED, UNKNOWN
 def _function_of(name):
     if name.startswith("cencoding.time_shift"):
         return "cencoding.time_shift"
+    if name.startswith("converts_inplace."):
+        return "converted_types.converts_inplace"
+    if name.startswith("read_data_page_v2."):
+        return "core.read_data_page_v2"
     if name.startswith("text."):
         return "writer.convert"
     if name.startswith("find_type."):
